@@ -249,6 +249,68 @@ func runDecode(w io.Writer, stats map[string]int) {
 		emitLine(w, map[string]interface{}{"op": "decode", "key": k.key, "aws": k.aws, "obs": obs})
 		stats["decode"]++
 	}
+	// what a group decodes to must not depend on the groups written next to it: every key, set in one group of a file
+	// whose other group sets almost nothing, in both orders, as YAML and as JSON
+	alone := func(doc string) (controller.NodeGroupOptions, bool) {
+		o, err := controller.UnmarshalNodeGroupOptions(strings.NewReader(doc))
+		if err != nil || len(o) != 1 {
+			return controller.NodeGroupOptions{}, false
+		}
+		return o[0], true
+	}
+	for _, k := range keys {
+		for _, form := range []string{"yaml", "json"} {
+			var rich, poor string // the two entries, in the form's syntax
+			if form == "yaml" {
+				if k.aws {
+					rich = fmt.Sprintf("  - name: rich\n    aws:\n      %s: %s\n", k.key, k.yamlVal)
+				} else if k.key == "name" {
+					rich = fmt.Sprintf("  - name: %s\n", k.yamlVal)
+				} else {
+					rich = fmt.Sprintf("  - name: rich\n    %s: %s\n", k.key, k.yamlVal)
+				}
+				poor = "  - label_key: only\n    aws:\n      instance_type_overrides: [\"m5.xlarge\"]\n"
+			} else {
+				if k.aws {
+					rich = fmt.Sprintf("{\"name\":\"rich\",\"aws\":{%q: %s}}", k.key, k.jsonVal)
+				} else if k.key == "name" {
+					rich = fmt.Sprintf("{\"name\": %s}", k.jsonVal)
+				} else {
+					rich = fmt.Sprintf("{\"name\":\"rich\",%q: %s}", k.key, k.jsonVal)
+				}
+				poor = "{\"label_key\":\"only\",\"aws\":{\"instance_type_overrides\":[\"m5.xlarge\"]}}"
+			}
+			wrap := func(entries ...string) string {
+				if form == "yaml" {
+					return "node_groups:\n" + strings.Join(entries, "")
+				}
+				return "{\"node_groups\":[" + strings.Join(entries, ",") + "]}"
+			}
+			r1, ok1 := alone(wrap(rich))
+			p1, ok2 := alone(wrap(poor))
+			independent := ok1 && ok2
+			why := ""
+			for _, order := range [][]string{{rich, poor}, {poor, rich}} {
+				both, err := controller.UnmarshalNodeGroupOptions(strings.NewReader(wrap(order...)))
+				if err != nil || len(both) != 2 {
+					independent, why = false, "two-entry file does not decode to two groups"
+					continue
+				}
+				a, b := both[0], both[1]
+				if order[0] == poor {
+					a, b = b, a
+				}
+				if !reflect.DeepEqual(a, r1) {
+					independent, why = false, "the entry that sets the key decodes differently next to another entry"
+				}
+				if !reflect.DeepEqual(b, p1) {
+					independent, why = false, "the entry that does not set the key decodes differently next to one that does"
+				}
+			}
+			emitLine(w, map[string]interface{}{"op": "decode2", "key": k.key, "form": form, "obs": map[string]interface{}{"independent": independent, "why": why}})
+			stats["decode2"]++
+		}
+	}
 }
 
 // ---------------------------------------------------------------------------------------------
